@@ -30,7 +30,7 @@ pub fn check_prepare_enforce(env: &Env, p: Prof, s: &str, rec: &mut Rec, sigpfx:
     let want_p = pipes::prepare_ref(env, p, s, &mut tr);
     let got_p = api::prepare(p, s);
     rec.eval();
-    if !want_p.contains(&got_p) {
+    if !api::accepts(&want_p, &got_p) {
         rec.violation(
             &format!("{}-prepare-differs-from-reference-pipeline", sigpfx),
             Witness {
@@ -45,7 +45,7 @@ pub fn check_prepare_enforce(env: &Env, p: Prof, s: &str, rec: &mut Rec, sigpfx:
     let want_e = pipes::enforce_ref(env, p, s, &mut tr);
     let got_e = api::enforce(p, s);
     rec.eval();
-    if !want_e.contains(&got_e) {
+    if !api::accepts(&want_e, &got_e) {
         rec.violation(
             &format!("{}-enforce-differs-from-reference-pipeline", sigpfx),
             Witness {
@@ -113,6 +113,7 @@ pub fn check(env: &Env, s: &str, rec: &mut Rec) {
                     api::E::Invalid => "invalid(empty-or-bidi)",
                     api::E::Bad(..) => "bad-codepoint",
                     api::E::Undefined => "undefined-context",
+                    api::E::Any => "any",
                     _ => "other-error",
                 };
                 rec.count(&format!("rejected:{}", k));
